@@ -59,7 +59,7 @@ def gen_graph(rng, npal, depth=0, allow_colrglyph=True):
     F = ot.PaintFormat
 
     def color():
-        return dict(PaletteIndex=rng.choice(list(range(npal)) + [0xFFFF] * (1 if rng.random() < 0.15 else 0)), Alpha=rng.choice([1.0, 1.0, 0.5, 0.25]))
+        return dict(PaletteIndex=rng.choice(list(range(npal)) + [0xFFFF] * (1 if rng.random() < 0.15 else 0)), Alpha=rng.choice([1.0, 1.0, 0.5, 0.25, 0.0]))
 
     def fill():
         k = rng.random()
@@ -137,7 +137,7 @@ def run_v1(report, n, rng):
 
     for i in range(n):
         npal = rng.choice([1, 1, 2, 3])
-        base_pal = [(0, 0, 0, 1.0), (1, 0, 0, 1.0), (0, 0.5, 0, 1.0), (0, 0, 1, 1.0), (1, 0.8, 0, 1.0)]
+        base_pal = [(0, 0, 0, 1.0), (1, 0, 0, 1.0), (0, 0.5, 0, 1.0), (0, 0, 1, 1.0), (1, 0.8, 0, 1.0), (240 / 255, 240 / 255, 240 / 255, 1.0), (64 / 255, 128 / 255, 192 / 255, 1.0)]
         palettes = [base_pal] + [[(c[2], c[0], c[1], 1.0) for c in base_pal] for _ in range(npal - 1)]
         graphs = {"base2": gen_graph(rng, len(base_pal), depth=2, allow_colrglyph=False)}
         graphs["base0"] = gen_graph(rng, len(base_pal))
@@ -563,7 +563,7 @@ def run_traversal(report, n, rng):
     from picosvg.geometric_types import Rect
     from harness import picture
 
-    base_pal = [(0, 0, 0, 1.0), (1, 0, 0, 1.0), (0, 0.5, 0, 1.0), (0, 0, 1, 1.0), (1, 0.8, 0, 0.5)]
+    base_pal = [(0, 0, 0, 1.0), (1, 0, 0, 1.0), (0, 0.5, 0, 1.0), (0, 0, 1, 1.0), (1, 0.8, 0, 0.5), (240 / 255, 240 / 255, 240 / 255, 1.0), (64 / 255, 128 / 255, 192 / 255, 1.0)]
     cases, metas = [], []
     for i in range(n):
         graphs = {"base2": _wrap_fills(rng, gen_graph(rng, len(base_pal), depth=2, allow_colrglyph=False))}
